@@ -10,6 +10,7 @@ import os
 
 import core
 import sched
+import priv
 
 IDS = [0, 1, 2 ** 53, "", "0", "1", "a"]
 F18 = "F18-thread-awaitable-writer"
@@ -24,9 +25,12 @@ def B(k, o, n=0, early=False, r="prop"):
     return b
 
 
+@priv.in_worker
 def _run_one(case):
     try:
         return sched.run_case(case)
+    except priv.Unresolvable:       # a failure of the harness, not an observation of pygls
+        raise
     except BaseException as ex:     # noqa
         return ["raise", type(ex).__name__, str(ex)[:200]]
 
@@ -59,7 +63,9 @@ class C01(core.Property):
                     "harness/sched.py (ready-queue interposition on a private asyncio loop with _PyTask, duck-typed "
                     "pool and writers, frame decoder) and harness/c01.py (generators, canonicalisation)",
                     "modelled not verified: asyncio task/cancel semantics, concurrent.futures.Future, dict order, "
-                    "json.dumps failing on an unserialisable value, cattrs structuring as an oracle (POk/PBad/PFail)"]
+                    "json.dumps failing on an unserialisable value, cattrs structuring as an oracle (POk/PBad/PFail)",
+                    priv.trusted(sched.PRIVATE)]
+    private = sched.PRIVATE
     assumptions = ["handler_codes_int32: a request handler that raises a JsonRpcException uses an int32 code; outside, the "
                    "real endpoint sends no reply (C07 finding wide-own-code) and the model is not claimed faithful - the "
                    "generators stay inside (boundary codes 2^31-1 and -2^31 included)",
@@ -263,10 +269,10 @@ class C01(core.Property):
     # ---------------------------------------------------------------- implementation
     def run_impl(self, chk, cases):
         if len(cases) < 40:
-            return [_run_one(c) for c in cases]
+            return priv.collect(_run_one(c) for c in cases)
         import multiprocessing as mp
         with mp.get_context("fork").Pool(4) as pool:
-            return pool.map(_run_one, cases, chunksize=16)
+            return priv.collect(pool.map(_run_one, cases, chunksize=16))
 
     # ---------------------------------------------------------------- model
     def model_input(self, case):
